@@ -274,6 +274,11 @@ def odd_values():
         subj['__providedBy__ raises ' + label] = K2()
         K3 = type('KPP' + label, (), {'__providedBy__': 3, '__provides__': raising(exc)})
         subj['__providedBy__=3, __provides__ raises ' + label] = K3()
+        # a __providedBy__ that is not a specification, and whose ``extends``
+        # (the attribute that is probed to find that out) raises
+        Probe = type('Probe' + label, (), {'extends': raising(exc)})
+        K5 = type('KPE' + label, (), {'__providedBy__': Probe()})
+        subj['__providedBy__.extends raises ' + label] = K5()
         K4 = type('KPC' + label, (), {'__class__': raising(exc)})
         try:
             subj['__class__ raises ' + label] = K4()
